@@ -108,6 +108,82 @@ class RandomHarness(NativeHarness):
             raise _Discard()
 
 
+def conformance(oset_name, seed, tries):
+    """Differential run: real package on CPython vs the pyvc interpreter, same proof script, same inputs.
+    Returns dict(samples, compared, disagreements[list])."""
+    import hashlib
+    from pyvc.harness import ConcreteHarness, SkipConformance
+    from pyvc.interp import Interp, Path, PathEnd, LoopCut
+    from pyvc.values import Unsupported, PyExc
+    from pyvc import check as chk, vc
+    o = find_oset(oset_name)
+    rng = random.Random(int(hashlib.sha1(f"{oset_name}/{seed}".encode()).hexdigest()[:8], 16))
+    loader = chk._LOADER or chk.build_loader()
+    chk._LOADER = loader
+    samples = compared = 0
+    dis = []
+    for _ in range(tries):
+        hn = RandomHarness(rng, oset_name)
+        try:
+            o.fn(hn)
+        except _Discard:
+            continue
+        except Exception as e:  # noqa: BLE001
+            return {"samples": samples, "compared": compared, "disagreements": dis, "skipped": f"native run raised {type(e).__name__}: {e}"}
+        if not hn.checked:
+            return {"samples": 0, "compared": 0, "disagreements": [], "skipped": "no native reading"}
+        native = list(zip(hn.checked, [n not in [f[0] for f in hn.failed] for n in hn.checked]))
+        # native harness records names; rebuild (name, held) in order
+        held = []
+        failed_names = [f[0] for f in hn.failed]
+        fi = 0
+        for n in hn.checked:
+            if fi < len(failed_names) and failed_names[fi] == n:
+                held.append((n, False))
+                fi += 1
+            else:
+                held.append((n, True))
+        it = Interp(loader)
+        it.path = Path([])
+        it.undo = []
+        vc._install_undo(it)
+        hc = ConcreteHarness(it, oset_name, _jsonable(hn.inputs))
+        if "clock0" in hn.inputs:
+            it.path.ghost["now"] = float(hn.inputs["clock0"])
+        try:
+            o.fn(hc)
+        except SkipConformance as e:
+            return {"samples": samples, "compared": compared, "disagreements": dis, "skipped": str(e)}
+        except (PathEnd, LoopCut):
+            pass
+        except Unsupported as e:
+            return {"samples": samples, "compared": compared, "disagreements": dis, "skipped": f"unsupported concretely: {e}"}
+        except Exception as e:  # noqa: BLE001
+            dis.append({"inputs": _jsonable(hn.inputs), "error": f"interpreter raised {type(e).__name__}: {e}"})
+            continue
+        finally:
+            for obj, name, old in reversed(it.undo):
+                if old is vc.MISSING:
+                    obj.attrs.pop(name, None)
+                else:
+                    obj.attrs[name] = old
+        samples += 1
+        compared += len(held)
+        # compare per obligation name (a script may state extra obligations in one of the readings)
+        def by_name(lst):
+            d = {}
+            for n, v in lst:
+                d.setdefault(n, []).append(v)
+            return d
+        a, b = by_name(held), by_name(hc.outcomes)
+        common = [n for n in a if n in b]
+        diff = [n for n in common if a[n] != b[n]]
+        compared -= len(held) - sum(len(a[n]) for n in common)
+        if diff:
+            dis.append({"inputs": _jsonable(hn.inputs), "differs": {n: {"cpython": a[n], "pyvc": b[n]} for n in diff[:5]}})
+    return {"samples": samples, "compared": compared, "disagreements": dis}
+
+
 def find_oset(name):
     from contracts import index
     from pyvc import vc
